@@ -456,6 +456,12 @@ func TestC12(t *testing.T) {
 			for _, n := range c.scaleSizes([]int{100, 1000}, []int{5000, 20000}) {
 				c.c12Program(s, "scale", scaleKeys(n), true, "scale-keys")
 			}
+			// objects nested inside one another, hundreds to thousands deep: printing shows every level
+			c.depthOverride = 60000
+			defer func() { c.depthOverride = 0 }()
+			for _, n := range c.scaleSizes([]int{64, 65, 999, 1000, 1001, 1002, 3000}, []int{10000}) {
+				c.c12Program(s, "scale", scaleNestedObjects(n), true, "scale-nesting")
+			}
 		})
 		c.Rapid("self-containing-unprinted", n/4, func(rt *rapid.T, s *Sub) {
 			src, nt := cyclicProgram(rt, true)
